@@ -1462,7 +1462,7 @@ func (x *executor) enterCut(m *machine, fr *frame, cuts []*atClause) bool {
 	for i, at := range cuts {
 		at.used = true
 		ev.where = at.cl.line
-		x.oblige(m, "cut", "cut:"+clauseName(at.cl, i), ev.evalBool(at.cl.e), at.cl.tags, at.cl.text)
+		x.oblige(m, "cut", clauseName(at.cl, i), ev.evalBool(at.cl.e), at.cl.tags, at.cl.text)
 	}
 	live := liveAcross(b)
 	if lr.cuts == nil {
@@ -1513,7 +1513,7 @@ func (x *executor) enterCut(m *machine, fr *frame, cuts []*atClause) bool {
 		ev.where = at.cl.line
 		m.st.assume(ev.evalBool(at.cl.e))
 	}
-	cov := x.oblige(m, "cover", "cut:"+clauseName(cuts[0].cl, 0), tFalse, nil, "cut point reachable under its clauses")
+	cov := x.oblige(m, "cover", "cut."+clauseName(cuts[0].cl, 0), tFalse, nil, "cut point reachable under its clauses")
 	cov.expectSat = true
 	return true
 }
